@@ -277,10 +277,14 @@ func (g *gen) newType() {
 		p, q := g.Top("P"), g.Top("Q")
 		pi := g.add(&item{name: p, kind: "type", text: fmt.Sprintf("type %s struct {\n\tq *%s\n\tn int\n}", p, q)})
 		qi := g.add(&item{name: q, kind: "type", text: fmt.Sprintf("type %s struct {\n\tp []%s\n\tm int\n}", q, p), deps: []int{pi}})
+		// composite literals of mutually recursive struct types hit a documented corner of
+		// gomacro's emulated recursive types ("some corner cases using recursive types may
+		// not work correctly"): only the zero value and field assignment are generated
 		v := g.Top("v")
 		var d2 []int
-		vtext := fmt.Sprintf("var %s = %s{&%s{nil, %s}, 4}", v, p, q, g.intAtom(&d2))
-		g.add(&item{name: v, kind: "varstruct", text: vtext, deps: append([]int{pi, qi}, d2...), record: []string{v + ".n", v + ".q.m"}})
+		vtext := fmt.Sprintf("var %s %s", v, p)
+		g.add(&item{name: v, kind: "varstruct", text: vtext, deps: append([]int{pi, qi}, d2...), record: []string{v + ".n", v + ".q == nil"}})
+		g.Tag("excluded:composite-literal-of-mutually-recursive-types")
 		g.Tag("type-mutual-recursion")
 	default: // named func type and slice type referring to a constant-sized array
 		f := g.Top("Fn")
@@ -341,6 +345,23 @@ func Generate(t *rapid.T, px string) gobatch.Program {
 		idx[i] = i
 	}
 	perm := rapid.Permutation(idx).Draw(t, "order")
+	if g.noMethodInInit {
+		// F-C16-2: a method must be declared before the code that calls it is compiled and the
+		// sorter sees no dependency on methods: keep the drawn order but put method
+		// declarations first in the text (counted)
+		var methods, rest []int
+		for _, i := range perm {
+			if g.items[i].kind == "method" {
+				methods = append(methods, i)
+			} else {
+				rest = append(rest, i)
+			}
+		}
+		if len(methods) > 0 {
+			g.excluded["F-C16-2"] += len(methods)
+		}
+		perm = append(methods, rest...)
+	}
 	pos := make([]int, len(perm))
 	for p, i := range perm {
 		pos[i] = p
